@@ -426,6 +426,50 @@ func init() {
 		l.p("def savePipesCallers : List String := %s", q(sp2))
 		l.p("def pipeDefsSavedOnCreate : Bool := %s", leanBool(c07Reaches(pfuncs, funcDecl(sf, "Service", "CreatePipe"), "savePipes", 2)))
 		l.p("def pipeDefsSavedOnDelete : Bool := %s", leanBool(c07Reaches(pfuncs, funcDecl(sf, "Service", "DeletePipe"), "savePipes", 2)))
+		// DeletePipe: is the position file removed (a call that reaches persister.onDeleteStream, e.g. ppipe.delete) BEFORE the
+		// registry is saved, both synchronously (not inside a go statement)?
+		removeFirst := false
+		if dp := funcDecl(sf, "Service", "DeletePipe"); dp == nil {
+			problem("pipe.Service.DeletePipe not found")
+		} else {
+			var removePos, savePos token.Pos
+			async := false
+			var walk func(n ast.Node, inGo bool)
+			walk = func(n ast.Node, inGo bool) {
+				ast.Inspect(n, func(x ast.Node) bool {
+					switch y := x.(type) {
+					case *ast.GoStmt:
+						walk(y.Call, true)
+						return false
+					case *ast.CallExpr:
+						sel := c07Sel(y.Fun)
+						isRemove := sel == "onDeleteStream" || strings.HasSuffix(sel, ".onDeleteStream")
+						if !isRemove {
+							if cal := c07Callee(pfuncs, y); cal != nil && cal != dp && c07Reaches(pfuncs, cal, "onDeleteStream", 2) {
+								isRemove = true
+							}
+						}
+						if isRemove && removePos == 0 {
+							removePos = y.Pos()
+							async = async || inGo
+						}
+						if (sel == "savePipes" || strings.HasSuffix(sel, ".savePipes")) && savePos == 0 {
+							savePos = y.Pos()
+							async = async || inGo
+						}
+					}
+					return true
+				})
+			}
+			walk(dp.Body, false)
+			if removePos == 0 {
+				problem("pipe.Service.DeletePipe: no call that removes the position file (onDeleteStream) found")
+			}
+			removeFirst = removePos != 0 && savePos != 0 && removePos < savePos && !async
+		}
+		l.p("/-- `Service.DeletePipe` removes the pipe's position file (`ppipe.delete` → `onDeleteStream`) before it saves the registry,")
+		l.p("both before it returns (84f34ca); false: the registry is saved first, or one of the two runs in its own goroutine -/")
+		l.p("def deletePipeRemovesPositionsBeforeSave : Bool := %s", leanBool(removeFirst))
 		cs := c07Callers([]*ast.File{cf}, "saveDataToFile")
 		if !has(cs, "close") {
 			problem("cindex.close no longer calls saveDataToFile")
@@ -479,6 +523,65 @@ func init() {
 			problem("partition.Service.Shutdown not found")
 		}
 		syncs := c07Reaches(c07PkgFuncs(parFiles), shut, "Sync", 2)
+		// partition.Service.deleteJournal: a journal that still holds records is refused BEFORE the record leaves the tag index
+		var delJ *ast.FuncDecl
+		for _, f := range parFiles {
+			if fd := funcDecl(f, "Service", "deleteJournal"); fd != nil {
+				delJ = fd
+			}
+		}
+		refusesNonEmpty := false
+		if delJ == nil {
+			problem("partition.Service.deleteJournal not found")
+		} else {
+			var guardPos, deletePos token.Pos
+			hasCall := func(n ast.Node, name string) bool {
+				found := false
+				if n == nil {
+					return false
+				}
+				ast.Inspect(n, func(x ast.Node) bool {
+					if ce, ok := x.(*ast.CallExpr); ok {
+						if se, ok := ce.Fun.(*ast.SelectorExpr); ok && se.Sel.Name == name {
+							found = true
+						}
+					}
+					return true
+				})
+				return found
+			}
+			ast.Inspect(delJ.Body, func(n ast.Node) bool {
+				switch x := n.(type) {
+				case *ast.IfStmt:
+					sized := hasCall(x.Cond, "Size")
+					if x.Init != nil && hasCall(x.Init, "Size") {
+						sized = true
+					}
+					returns := false
+					ast.Inspect(x.Body, func(y ast.Node) bool {
+						if _, ok := y.(*ast.ReturnStmt); ok {
+							returns = true
+						}
+						return true
+					})
+					if sized && returns && guardPos == 0 {
+						guardPos = x.Pos()
+					}
+				case *ast.CallExpr:
+					if se, ok := x.Fun.(*ast.SelectorExpr); ok && se.Sel.Name == "Delete" && deletePos == 0 {
+						deletePos = x.Pos()
+					}
+				}
+				return true
+			})
+			if deletePos == 0 {
+				problem("partition.Service.deleteJournal: no call of TIndex.Delete found")
+			}
+			refusesNonEmpty = guardPos != 0 && guardPos < deletePos
+		}
+		l.p("/-- `partition.Service.deleteJournal` returns without touching the tag index when the journal still holds records (a test of")
+		l.p("`Size()` in front of `TIndex.Delete`): the tag-index save of a deletion never drops the record of a journal with data -/")
+		l.p("def deleteJournalRefusesNonEmpty : Bool := %s", leanBool(refusesNonEmpty))
 		l.p("/-- `partition.Service.Shutdown` calls `Sync()` on the journals (the library's journal controller has no Shutdown) -/")
 		l.p("def partitionShutdownSyncsJournals : Bool := %s", leanBool(syncs))
 		// cindex.onWrite: (1) the branch for a source the index has no entry for (`!ok`, an if or a switch case) sets
@@ -623,6 +726,32 @@ func init() {
 		l.p("/-- `cindex.onWrite`: a write that lands on a snapshot entry beyond the records it accounts for (`firstRec > last.Recs`)")
 		l.p("sets `newChk`, so the chunk is rebuilt like one notified from the middle (7ea0278) -/")
 		l.p("def onWriteStaleSnapshotEntryIsNewChk : Bool := %s", leanBool(staleWriteNew))
+		// … and that test comes BEFORE the entry's record count is raised to the end of the batch (`X.Recs = lastRec + 1`): the
+		// other way round `firstRec > X.Recs` can never hold
+		staleBeforeBump := false
+		if fd := funcDecl(cf, "cindex", "onWrite"); fd != nil {
+			stalePos, bumpPos := token.NoPos, token.NoPos
+			ast.Inspect(fd.Body, func(n ast.Node) bool {
+				switch x := n.(type) {
+				case *ast.IfStmt:
+					ast.Inspect(x.Cond, func(m ast.Node) bool {
+						if be, ok := m.(*ast.BinaryExpr); ok && be.Op == token.GTR && c07Sel(be.X) == "firstRec" && strings.HasSuffix(c07Sel(be.Y), ".Recs") && stalePos == token.NoPos {
+							stalePos = x.Pos()
+						}
+						return true
+					})
+				case *ast.AssignStmt:
+					if len(x.Lhs) == 1 && strings.HasSuffix(c07Sel(x.Lhs[0]), ".Recs") && bumpPos == token.NoPos {
+						bumpPos = x.Pos()
+					}
+				}
+				return true
+			})
+			staleBeforeBump = stalePos != token.NoPos && (bumpPos == token.NoPos || stalePos < bumpPos)
+		}
+		l.p("/-- in `cindex.onWrite` the staleness test `firstRec > last.Recs` is evaluated before `last.Recs` is raised to the end of")
+		l.p("the notified batch (after that assignment it could never hold) -/")
+		l.p("def onWriteChecksStalenessBeforeRecsBump : Bool := %s", leanBool(staleBeforeBump))
 		l.p("/-- `cindex.syncChunks` removes the partition from the map instead of storing an empty chunk list after `dropStale` -/")
 		l.p("def syncChunksNeverStoresEmptyList : Bool := %s", leanBool(deletes >= 2))
 		l.p("/-- `cindex.init` checks every loaded root (`ckiCtrlr.isRoot`: the block can be read and is not empty) and forgets the")
